@@ -3,8 +3,12 @@
 Engine N, operation-sequence search with state deduplication.  The world is a cqlengine
 connection over a fake session whose statements are executed by the independent interpreter
 `vt.spec.minicql` (Cassandra cell semantics).  Operations are real cqlengine calls on three
-models/slots: X = row (pk=1, ck=1) and Y = row (pk=1, ck=2) of a table with scalar, static, set,
-list and map columns, Z = row pk=1 of a counter table.
+models/slots: X = an instance created at (pk=1, ck=1) and Y = one created at (pk=1, ck=2) of a table
+with a partition key, a clustering key and scalar, static, set, list and map columns, Z = row pk=1 of
+a counter table.  A persisted instance can be moved: a new value is assigned to its clustering and/or
+partition key column (alone or together with other mutations) and it is saved; from then on the slot
+addresses the row under the instance's current key (locations (1,3), (2,1), (2,3) besides the two
+home keys; two partitions, each with its own static column).
 
 Oracles, evaluated after every step:
  * instance read-back: for every live instance that is in sync (nothing else wrote its row or
@@ -14,7 +18,7 @@ Oracles, evaluated after every step:
  * query-set updates: the row equals the row before with the documented effect of each keyword
    applied (assignment overwrites, None deletes, add/remove/append/prepend/update/remove with
    their operands, empty operands change nothing);
- * frame: rows not addressed by the step are unchanged;
+ * frame: rows (of every location in both partitions) not addressed by the step are unchanged;
  * conditional operations apply iff their condition held, and raise LWTException otherwise;
  * every statement is valid CQL for the table (the interpreter rejects what Cassandra rejects).
 """
@@ -27,8 +31,11 @@ META = {
     'engine': 'N',
     'technique': 'explicit-state search over cqlengine operation sequences with canonical-state deduplication; every step executed on an independent CQL interpreter and judged by read-back',
     'text': 'Breadth-first search to depth 3 (quick) / 5 (thorough) over an alphabet of create / save / update / instance mutation / '
-            'query-set update (every documented collection operator, with empty operands) / delete / conditional / batch / counter / reload '
-            'operations on two rows of one partition of a model with scalar, static, set, list and map columns and on a counter model. '
+            'query-set update (every documented collection operator, with empty operands) / delete / conditional / batch / counter / reload / '
+            'key assignment (a new value for the clustering key, the partition key or both on a persisted instance, alone or with other '
+            'mutations, then save(), also inside a batch) '
+            'operations on two instances of a model with a partition key, a clustering key and scalar, static, set, list and map columns '
+            '(five row locations in two partitions) and on a counter model. '
             'States are (interpreter table content, per-slot instance values, previous values, explicit flags, sync flag) and are expanded once. '
             'Every explored trace is an execution of the real cqlengine code; the CQL it emits is parsed and applied by vt/spec/minicql.py.',
     'note': 'Trusted base: the cell semantics S1-S10 of vt/spec/minicql.py (listed in the evidence assumptions) and the fake session. '
@@ -40,7 +47,8 @@ META = {
 T_R = ('ks', 'r')
 T_C = ('ks', 'c')
 COLS = ('st', 'v', 's', 'l', 'm')
-KEYS = {'X': (1, 1), 'Y': (1, 2)}
+KEYS = {'X': (1, 1), 'Y': (1, 2)}           # home keys: where a slot's instance is created
+LOCS = ((1, 1), (1, 2), (1, 3), (2, 1), (2, 3))   # every (pk, ck) an instance can be moved to by key assignment + save
 
 _w = {}
 
@@ -114,12 +122,28 @@ class World(object):
         if slot == 'Z':
             r = self.db.read_row(T_C, (1,))
             return {'n': (r['n'] if r else None) or 0}
-        pk, ck = KEYS[slot]
+        return self.loc_view(self.key(slot))
+
+    def key(self, slot):
+        """The row a slot addresses: the current key of its instance, else its home key."""
+        i = self.inst[slot]
+        if i is None:
+            return KEYS[slot]
+        k = (i.pk, i.ck)
+        if k not in LOCS:
+            raise HarnessError('instance %s has key %r, which is not an enumerated location' % (slot, k))
+        return k
+
+    def loc_view(self, loc):
+        pk, ck = loc
         r = self.db.read_row(T_R, (pk,), (ck,))
         st = self.db.read_static(T_R, (pk,))
         out = dict((c, nv(r[c]) if r else None) for c in COLS if c != 'st')
         out['st'] = st['st'] if st else None
         return out
+
+    def loc_exists(self, loc):
+        return self.db.read_row(T_R, (loc[0],), (loc[1],)) is not None
 
     def inst_view(self, slot):
         i = self.inst[slot]
@@ -128,8 +152,7 @@ class World(object):
         return dict((c, nv(getattr(i, c))) for c in COLS)
 
     def row_exists(self, slot):
-        pk, ck = KEYS[slot]
-        return self.db.read_row(T_R, (pk,), (ck,)) is not None
+        return self.loc_exists(self.key(slot))
 
     def canon(self):
         insts = []
@@ -155,19 +178,36 @@ class World(object):
                                     opname, slot, dict((c, iv[c]) for c in bad), dict((c, rv[c]) for c in bad), bad, list(sent) or 'no statement'))
 
     def others_unchanged(self, before, touched, opname, static_may_change):
-        for slot in ('X', 'Y', 'Z'):
-            if slot in touched:
+        """Frame: the counter row and every location not addressed by the touched slots (under the key
+        they had before the step or have now) are as before; a step that may write a static column may
+        change it only in the partitions it addresses."""
+        if 'Z' not in touched:
+            now = self.row_view('Z')
+            if now != before['Z']:
+                raise Violation('C35/frame/%s' % opname, 'step %s changed row Z, which it does not address: %r -> %r' % (opname, before['Z'], now))
+        addressed = set()
+        for slot in touched:
+            if slot != 'Z':
+                addressed.add(before['@keys'][slot])
+                addressed.add(self.key(slot))
+        parts = set(pk for pk, _ in addressed)
+        for loc in LOCS:
+            if loc in addressed:
                 continue
-            now = self.row_view(slot)
-            b = dict(before[slot])
-            if static_may_change and slot != 'Z':
+            now = self.loc_view(loc)
+            b = dict(before['@locs'][loc])
+            if static_may_change and loc[0] in parts:
                 b['st'] = now['st']
             if now != b:
-                raise Violation('C35/frame/%s' % opname, 'step %s changed row %s, which it does not address: %r -> %r' % (opname, slot, before[slot], now))
+                raise Violation('C35/frame/%s' % opname, 'step %s changed row (pk=%d, ck=%d), which it does not address: %r -> %r' % (
+                    opname, loc[0], loc[1], before['@locs'][loc], now))
 
 
 def all_views(w):
-    return dict((s, w.row_view(s)) for s in ('X', 'Y', 'Z'))
+    out = dict((s, w.row_view(s)) for s in ('X', 'Y', 'Z'))
+    out['@keys'] = dict((s, w.key(s)) for s in ('X', 'Y'))
+    out['@locs'] = dict((loc, w.loc_view(loc)) for loc in LOCS)
+    return out
 
 
 # ================================================================================ operations
@@ -282,6 +322,79 @@ def op_mutate(slot, mut, persist):
     return ('%s.%s+%s' % (slot, name, persist), fn)
 
 
+# ---- key assignment on a persisted instance, then save(): the instance is written as a whole under the new key
+REKEYS = [
+    # label, {key column: new value}
+    ('ck=3', {'ck': 3}),
+    ('pk=2', {'pk': 2}),
+    ('pk=2,ck=3', {'pk': 2, 'ck': 3}),
+    ('pk=1', {'pk': 1}),
+]
+QUICK_REKEY = [('ck=3', None), ('ck=3', 'v=7'), ('ck=3', 'v=None'), ('ck=3', 'combo'), ('pk=2', None), ('pk=2', 'combo-static'),
+               ('pk=2,ck=3', 'l.append3')]
+FULL_REKEY = [('ck=3', m) for m in (None, 'v=7', 'v=None', 'st=b', 'st=None', 's.add3', 's=empty', 'l.append3', 'l.pop', 'm[3]=30',
+                                    'del m[1]', 'combo', 'combo-static')] + \
+             [('pk=2', m) for m in (None, 'v=None', 'st=None', 'combo', 'combo-static')] + \
+             [('pk=2,ck=3', None), ('pk=2,ck=3', 'l.append3'), ('pk=2,ck=3', 'combo'), ('pk=1', None)]
+
+
+def _rekey_target(w, slot, assign, before):
+    """-> the key the instance would have, or None when the move is not generated (see ASSUMPTIONS)."""
+    i = w.inst[slot]
+    cur = (i.pk, i.ck)
+    new = (assign.get('pk', cur[0]), assign.get('ck', cur[1]))
+    if new == cur or w.loc_exists(new):
+        return None                 # no move / an upsert over an existing row: not generated
+    for other in ('X', 'Y'):
+        if other != slot and w.inst[other] is not None and w.key(other) == new:
+            return None
+    return new
+
+
+def _rekey_static_ok(w, slot, new, before):
+    # written into another partition: the static column stored there must be null or be overwritten
+    # by the instance's own non-null value (an INSERT leaves an unspecified static as it is)
+    i = w.inst[slot]
+    return new[0] == before['@keys'][slot][0] or before['@locs'][new]['st'] is None or i.st is not None
+
+
+def op_rekey(slot, rekey, mutname):
+    label, assign = rekey
+    mut = [m for m in MUTATIONS if m[0] == mutname][0] if mutname else None
+    opname = '%s%s+save' % (label, ',' + mutname if mutname else '')
+
+    def fn(w):
+        i = w.inst[slot]
+        if i is None or not w.sync[slot] or not i._is_persisted:
+            return False
+        if mut is not None and not mut[1](i):
+            return False
+        before = all_views(w)
+        new = _rekey_target(w, slot, assign, before)
+        if new is None:
+            return False
+        if mut is not None:
+            mut[2](i)
+        if not _rekey_static_ok(w, slot, new, before):
+            return False            # (the world of a disabled step is discarded, so the mutation above does not leak)
+        for k, val in sorted(assign.items()):
+            setattr(i, k, val)
+        i.save()
+        after = all_views(w)
+        _peers_stale(w, slot, before, after)
+        # the row under the old key is not addressed by save(): it stays as it was
+        old = before['@keys'][slot]
+        if old != new:
+            b, n = dict(before['@locs'][old]), w.loc_view(old)
+            if new[0] == old[0]:
+                b['st'] = n['st']
+            if n != b:
+                raise Violation('C35/frame/rekey-old-row', 'step %s changed the row under the old key (pk=%d, ck=%d): %r -> %r' % (
+                    opname, old[0], old[1], before['@locs'][old], n))
+        w.others_unchanged(before, (slot,), opname, True)
+    return ('%s.%s' % (slot, opname), fn)
+
+
 def op_update_kw(slot, label, kwargs, static=False):
     def fn(w):
         i = w.inst[slot]
@@ -301,6 +414,7 @@ def op_delete(slot):
         if i is None or not w.sync[slot]:
             return False
         before = all_views(w)
+        loc = None if slot == 'Z' else w.key(slot)
         i.delete()
         w.inst[slot] = None
         w.sync[slot] = False
@@ -308,8 +422,8 @@ def op_delete(slot):
             if w.row_view('Z') != {'n': 0}:
                 raise Violation('C35/delete/row-remains', 'after delete() the counter row still reads %r' % (w.row_view('Z'),))
         else:
-            if w.row_exists(slot):
-                raise Violation('C35/delete/row-remains', 'after delete() the row %s still exists: %r' % (slot, w.row_view(slot)))
+            if w.loc_exists(loc):
+                raise Violation('C35/delete/row-remains', 'after delete() the row %s (pk=%d, ck=%d) still exists: %r' % (slot, loc[0], loc[1], w.loc_view(loc)))
         w.others_unchanged(before, (slot,), 'delete', False)
     return ('%s.delete' % slot, fn)
 
@@ -321,7 +435,7 @@ def op_reload(slot):
         if slot == 'Z':
             q = w.C.objects.filter(pk=1)
         else:
-            pk, ck = KEYS[slot]
+            pk, ck = w.key(slot)
             q = w.R.objects.filter(pk=pk, ck=ck)
         got = q.first()
         w.inst[slot] = got
@@ -455,7 +569,7 @@ def op_qs_update(slot, spec):
     label, kwargs, effects, static, _ = spec
 
     def fn(w):
-        pk, ck = KEYS[slot]
+        pk, ck = w.key(slot)
         before = all_views(w)
         expected = dict(before[slot])
         for e in effects:
@@ -466,7 +580,7 @@ def op_qs_update(slot, spec):
         else:
             w.R.objects.filter(pk=pk, ck=ck).update(**kwargs)
         for s in ('X', 'Y'):
-            if w.inst[s] is not None and (s == slot or static):
+            if w.inst[s] is not None and (s == slot or w.key(s) == (pk, ck) or (static and w.key(s)[0] == pk)):
                 w.sync[s] = False
         now = w.row_view(slot)
         if now != expected:
@@ -481,13 +595,14 @@ def op_qs_update(slot, spec):
 
 def op_qs_delete(slot):
     def fn(w):
-        pk, ck = KEYS[slot]
+        pk, ck = w.key(slot)
         if not w.row_exists(slot):
             return False
         before = all_views(w)
         w.R.objects.filter(pk=pk, ck=ck).delete()
-        if w.inst[slot] is not None:
-            w.sync[slot] = False
+        for s in ('X', 'Y'):
+            if w.inst[s] is not None and w.key(s) == (pk, ck):
+                w.sync[s] = False
         if w.row_exists(slot):
             raise Violation('C35/qs-delete/row-remains', 'objects(pk, ck).delete() left the row: %r' % (w.row_view(slot),))
         w.others_unchanged(before, (slot,), 'qs-delete', False)
@@ -513,6 +628,11 @@ def op_batch(label, steps):
                     m = [x for x in MUTATIONS if x[0] == arg][0]
                     if not m[1](i):
                         return False
+                if kind == 'rekey':
+                    assign = dict(REKEYS)[arg]
+                    new = _rekey_target(w, slot, assign, before)
+                    if new is None or not i._is_persisted or not _rekey_static_ok(w, slot, new, before):
+                        return False
             plan.append((slot, kind, arg))
         with BatchQuery() as b:
             for slot, kind, arg in plan:
@@ -527,12 +647,18 @@ def op_batch(label, steps):
                     m[2](i)
                     i.batch(b).save()
                     i.batch(None)
+                elif kind == 'rekey':
+                    i = w.inst[slot]
+                    for k, val in sorted(dict(REKEYS)[arg].items()):
+                        setattr(i, k, val)
+                    i.batch(b).save()
+                    i.batch(None)
                 elif kind == 'delete':
                     w.inst[slot].batch(b).delete()
                     w.inst[slot] = None
                     w.sync[slot] = False
         for slot, kind, arg in plan:
-            if kind == 'delete' and w.row_exists(slot):
+            if kind == 'delete' and w.loc_exists(before['@keys'][slot]):
                 raise Violation('C35/delete/row-remains', 'after a batched delete() the row %s still exists' % slot)
         w.others_unchanged(before, tuple(s for s, _, _ in plan), 'batch-' + label, True)
     return ('batch(%s)' % label, fn)
@@ -580,6 +706,9 @@ def alphabet(quick):
             ops.append(op_mutate('X', mut, 'save'))
         if not quick or mut[0] in QUICK_MUT_UPDATE:
             ops.append(op_mutate('X', mut, 'update'))
+    rk = dict(REKEYS)
+    for label, mutname in (QUICK_REKEY if quick else FULL_REKEY):
+        ops.append(op_rekey('X', (label, rk[label]), mutname))
     ops.append(op_update_kw('X', 'v=None', {'v': None}))
     ops.append(op_update_kw('X', 'm={5:50}', {'m': {5: 50}}))
     if not quick:
@@ -602,8 +731,11 @@ def alphabet(quick):
         ops.append(op_mutate('Y', [m for m in MUTATIONS if m[0] == 'v=7'][0], 'update'))
         ops.append(op_reload('Y'))
         ops.append(op_qs_update('Y', QS_UPDATES[0]))
+        ops.append(op_rekey('Y', ('ck=3', rk['ck=3']), None))
+        ops.append(op_rekey('Y', ('pk=2', rk['pk=2']), 'v=7'))
     ops.append(op_batch('create X,Y', [('X', 'create', {'v': 1, 'm': {1: 10}}), ('Y', 'create', {'v': 2, 's': {2}})]))
     ops.append(op_batch('X combo, Y v=7', [('X', 'mutate', 'combo'), ('Y', 'mutate', 'v=7')]))
+    ops.append(op_batch('X ck=3, Y v=7', [('X', 'rekey', 'ck=3'), ('Y', 'mutate', 'v=7')]))
     if not quick:
         ops.append(op_batch('X delete, Y combo', [('X', 'delete', None), ('Y', 'mutate', 'combo')]))
     ops.append(op_counter('new'))
@@ -777,6 +909,10 @@ ASSUMPTIONS = [
     'S8 batches apply atomically; same-cell conflicts inside one batch are not generated (tie rules not modelled)',
     'S9 USING TTL has no visible effect (no time passes); USING TIMESTAMP is not generated',
     'an absent row and a row whose columns are all null are not distinguished by the read-back oracle',
+    'saving a persisted instance after assigning a key column writes the whole instance under the new key (read-back at the new key equals the '
+    'instance) and does not address the row under the old key; moves onto an existing row, or into a partition whose stored static column is set '
+    'while the instance has none, are upserts over stored values: not generated; update() after a key assignment and key assignment on counter '
+    'models are not generated (meaning not documented)',
     'operations through an instance whose row was changed by someone else since its last operation (stale instance) are not generated; reload() regains sync',
     'create()/save() of a new instance over an existing row, or in a partition whose static column is set without passing it, is an upsert whose '
     'unspecified columns keep their stored values: not generated',
